@@ -240,6 +240,15 @@ def _r3(chk, repo):
                  f"transpose of the documented convolution; identical only for symmetric PSFs with periodic/zero boundary", n.ast)
     else:
         raise AnchorError(f"Deconvolution1D: unknown assembly idiom `{inner[:120]}`")
+    # ... and the assembled matrix reaches the model as assembled: no entry of it is overwritten in between (`A[mask] = 0` to "drop negligible entries"
+    # removes every negative entry unless the mask takes absolute values; any thresholding changes the operator for signed kernels)
+    from ..alias import FnAlias
+    fa = FnAlias(init)
+    touched = [(r_, a_) for r_, n_, a_, k_ in fa.mutated_roots() if False] + \
+              [(unparse(b_), a_) for n_, a_, b_, k_ in fa.inplace_ops() if isinstance(b_, ast.Name) and b_.id == Aname]
+    chk.add("C17-R3", f"{ci.qual}.__init__/A-unmodified", not touched, site(repo, touched[0][1]) if touched else site(repo, init_src), "the assembled matrix is not written into",
+            f"`{unparse(touched[0][1])[:80] if touched else ''}` overwrites entries of the assembled operator before it is handed to the model: forward, exactData and data belong "
+            f"to a different kernel than the documented one (all negative entries of a signed PSF are dropped by a threshold without abs())", touched[0][1] if touched else init_src)
     md = [pn(x.ast.value) for x in ex.cfg.nodes if x.kind == "stmt" and isinstance(x.ast, ast.Assign) and path_of(x.ast.targets[0]) == "model"]
     ok = bool(md) and all(m == pn(f"cuqi.model.LinearModel({Aname},range_geometry=Continuous1D(dim),domain_geometry=Continuous1D(dim))") for m in md)
     chk.add("C17-R3", f"{ci.qual}.__init__/model", ok, site(repo, init_src), "LinearModel on the assembled matrix with Continuous1D geometries", "model construction changed", init_src)
